@@ -26,6 +26,10 @@ const (
 	SessionSMSPendingPID = "sms_pending"
 )
 
+// SessionSMSSecretNumber is the session key holding the phone number that
+// the code in SessionSMSSecret was sent to.
+const SessionSMSSecretNumber = "sms_secret_number"
+
 // Form value constants
 const (
 	FormValueCode        = "code"
@@ -212,6 +216,7 @@ func (s *SMS) SendCodeToUser(w http.ResponseWriter, r *http.Request, pid, number
 
 	authboss.PutSession(w, SessionSMSLast, strconv.FormatInt(time.Now().UTC().Unix(), 10))
 	authboss.PutSession(w, SessionSMSSecret, code)
+	authboss.PutSession(w, SessionSMSSecretNumber, number)
 
 	logger.Infof("sending sms for %s to %s", pid, number)
 	if err := s.Sender.Send(r.Context(), number, code); err != nil {
@@ -239,6 +244,7 @@ func (s *SMS) GetSetup(w http.ResponseWriter, r *http.Request) error {
 	}
 
 	authboss.DelSession(w, SessionSMSSecret)
+	authboss.DelSession(w, SessionSMSSecretNumber)
 	authboss.DelSession(w, SessionSMSNumber)
 
 	return s.Core.Responder.Respond(w, r, http.StatusOK, PageSMSSetup, data)
@@ -390,6 +396,17 @@ func (s *SMSValidator) validateCode(w http.ResponseWriter, r *http.Request, user
 		}
 
 		verified = 1 == subtle.ConstantTimeCompare([]byte(inputCode), []byte(code))
+
+		// The code only proves possession of the phone it was sent to: when
+		// sending was rate-limited an older code for a different number may
+		// still be in the session.
+		if sentTo, ok := authboss.GetSession(r, SessionSMSSecretNumber); ok && verified {
+			wantNumber := user.GetSMSPhoneNumber()
+			if s.Page == PageSMSConfirm {
+				wantNumber, _ = authboss.GetSession(r, SessionSMSNumber)
+			}
+			verified = sentTo == wantNumber
+		}
 	}
 
 	if !verified {
@@ -436,6 +453,7 @@ func (s *SMSValidator) validateCode(w http.ResponseWriter, r *http.Request, user
 
 		authboss.DelSession(w, authboss.Session2FAAuthed)
 		authboss.DelSession(w, SessionSMSSecret)
+		authboss.DelSession(w, SessionSMSSecretNumber)
 		authboss.DelSession(w, SessionSMSNumber)
 
 		logger.Infof("user %s enabled sms 2fa", user.GetPID())
@@ -471,6 +489,7 @@ func (s *SMSValidator) validateCode(w http.ResponseWriter, r *http.Request, user
 		authboss.DelSession(w, authboss.SessionHalfAuthKey)
 		authboss.DelSession(w, SessionSMSPendingPID)
 		authboss.DelSession(w, SessionSMSSecret)
+		authboss.DelSession(w, SessionSMSSecretNumber)
 
 		logger.Infof("user %s sms 2fa success", user.GetPID())
 
